@@ -412,7 +412,10 @@ def job_partition_real_quantizers(period, Wb, npol):
     recs = []
     P, taps = 4, 2
 
+    windows = []
+
     def stats_first(voltages, stats_calc_num_samples=10000, **kw):
+        windows.append(stats_calc_num_samples)
         fr, fi = cparts(voltages.flat[0] if isinstance(voltages, np.ndarray) else voltages[0])
         sd = Sym(SSD(fr, RV(1)))
         core.side(sd.t > 0)
@@ -464,6 +467,14 @@ def job_partition_real_quantizers(period, Wb, npol):
         recs.append(cex('C02:partition:real-quantisers:second', f'period {period}: a second recording of the same stream on the same backend differs from the first', dict(fn='partition_real', period=period, Wb=Wb, npol=npol, nsb=1), name=f"C02:partition-real-quantisers:{(period, Wb, npol)}:second-recording"))
     r, _ = core.check([lift(ref[0][0]) != lift(ref[1][0])])
     recs.append(q(f"C02:partition-real-quantisers:{(period, Wb, npol)}:twin", r, expect='sat'))
+    # "statistics from a common prefix": every estimate the digitiser / requantiser asked for used the configured prefix
+    # length (1 sample here), whatever the partition
+    name = f"C02:partition-real-quantisers:{(period, Wb, npol)}:configured-prefix"
+    wrong = sorted({w for w in windows if w != 1})
+    r, _ = core.check([RV(len(wrong)) != 0])
+    recs.append(q(name, r, requests=len(windows), detail=str(wrong)))
+    if wrong:
+        recs.append(cex('C02:configured-prefix', f'period {period}: quantiser statistics were requested over {wrong} samples, the configured prefix is 1', dict(fn='partition_real', period=period, Wb=Wb, npol=npol, nsb=1, prefix=True), name=name))
     # each stored sample is a function of its OWN polarisation's stream (its requantiser holds that stream's statistics):
     # no term of polarisation p may mention a sample of the other polarisation
     if npol == 2:
@@ -527,6 +538,19 @@ def replay_partition_real(p):
                 pos = end + be.block_size
             outs[nsb] = b''.join(blocks)
         bad = [n for n, v in outs.items() if v != outs[1]]
+        if p.get('prefix'):
+            # the configured prefix is what the statistics come from: a quantiser told to look at 2 samples, fed a block
+            # whose first two samples are unlike the rest
+            rng_ = np.random.default_rng(3)
+            x = np.concatenate([[10.0, 14.0], rng_.normal(0, 1, 62)]) + 1j * np.concatenate([[-3.0, -1.0], rng_.normal(0, 5, 62)])
+            cq = qz.ComplexQuantizer(num_bits=8, stats_calc_period=period, stats_calc_num_samples=2)
+            out = cq.quantize(x)
+            tstd = cq.quantizer_r.target_std
+            for nm, part, got in (('real', x.real, out.real), ('imaginary', x.imag, out.imag)):
+                want = np.clip(np.around(tstd / np.std(part[:2]) * (part - np.mean(part[:2]))), -128, 127)
+                if not np.array_equal(got, want):
+                    shutil.rmtree(d, ignore_errors=True)
+                    return True, f"ComplexQuantizer(stats_calc_num_samples=2): the {nm} part is not scaled with the statistics of its first 2 samples ({int(np.sum(got != want))} of {len(want)} values differ)"
         if p.get('own_stream') and npol == 2:
             # polarisations of very different level: a backend given ONE requantiser to clone per stream must record what
             # a backend given separately constructed requantisers records
